@@ -68,7 +68,7 @@ fn build_db(_sub: bool) -> Arc<FixtureDatabase> {
     db
 }
 
-fn observe(ci: usize, case: &Value, out: &Mutex<Vec<Finding>>, evals: &std::sync::atomic::AtomicU64, other_first: bool) {
+fn observe(ci: usize, case: &Value, out: &Mutex<Vec<Finding>>, evals: &std::sync::atomic::AtomicU64, other_first: bool, decoy_prev: bool) {
     let src = case["source"].as_str().unwrap_or("");
     let exp = &case["expected"];
     let sub = exp["location"] == 1 || exp["location"].as_u64() == Some(1);
@@ -76,7 +76,17 @@ fn observe(ci: usize, case: &Value, out: &Mutex<Vec<Finding>>, evals: &std::sync
     let db = build_db(sub);
     let mut push = |what: String, detail: String| out.lock().unwrap().push(Finding { case_index: ci, what, detail });
     // a previously valid version first (the document without its unfinished tail), then the text itself
-    if exp["valid"] != true {
+    if decoy_prev {
+        // the previous (valid) version of the document had a different line layout: every line of it
+        // lies in the signature or body of some test that declares `shadow` — nothing of that version
+        // may show through in the answers for the current text
+        let n = src.split('\n').count() + 6;
+        let mut decoy = String::from("import pytest\n");
+        for k in 0..n {
+            decoy.push_str(&format!("def test_decoy{}(shadow):\n    pass\n", k));
+        }
+        db.analyze_file(path.clone(), &decoy);
+    } else if exp["valid"] != true {
         let lines: Vec<&str> = src.split('\n').collect();
         let mut n = lines.len();
         while n > 0 && rustpython_ok(&lines[..n].join("\n")).is_none() {
@@ -89,7 +99,9 @@ fn observe(ci: usize, case: &Value, out: &Mutex<Vec<Finding>>, evals: &std::sync
         return;
     }
     let mut visible = workspace_visible(sub);
-    for lf in exp["local_fixtures"].as_array().unwrap() {
+    // (after the decoy version the document's own fixtures are unknown: its current text does not
+    // parse and its last valid version defined none)
+    for lf in exp["local_fixtures"].as_array().unwrap().iter().filter(|_| !decoy_prev) {
         visible.insert(lf[0].as_str().unwrap().to_string(), (lf[1].as_str().unwrap().to_string(), 0));
     }
     let lsp = Lsp::new(db.clone(), None);
@@ -192,8 +204,11 @@ pub fn run(rep: &'static Report) {
     let evals = std::sync::atomic::AtomicU64::new(0);
     par_batches(&cases, 16, |i, c| {
         if c.get("expected").is_some() {
-            observe(i, c, &findings, &evals, false);
-            observe(i, c, &findings, &evals, true);
+            observe(i, c, &findings, &evals, false, false);
+            observe(i, c, &findings, &evals, true, false);
+            if c["expected"]["valid"] != true {
+                observe(i, c, &findings, &evals, false, true);
+            }
         }
     });
     let f = findings.into_inner().unwrap();
@@ -212,7 +227,7 @@ pub fn run(rep: &'static Report) {
     if let Some(c) = cases.iter().find(|c| c["dims"].as_object().is_some_and(|o| o.len() == 2)) {
         rep.sample(json!({"dims": c["dims"], "source": c["source"]}));
     }
-    rep.set("rule", "documents assembled from blocks whose every line has a known completion class (12 dimensions: scope of the fixture being edited, signature layout, declared parameters, class nesting, async, extra decorators, body shape, usefixtures forms, parametrize, 13 unfinished signature/decorator tails, document location, name collision with a conftest fixture; ≤ max_deviations off-default); EVERY judged line is queried at its canonical column (inside the parentheses on signature/decorator lines, end of line in bodies, column 0 at module level) through the real completion handler (once on a fresh server, once after a completion request from a document in another directory with a different visible set) in a workspace with same-file, conftest (all five scopes), plugin, third-party, shadowed and non-visible sibling fixtures; expected = no items outside signature/body/usefixtures/indirect-parametrize contexts, else visible − declared − the fixture being edited − (inside a fixture) narrower scopes, each label once, sort groups same-file < conftest < plugin < third-party");
+    rep.set("rule", "documents assembled from blocks whose every line has a known completion class (12 dimensions: scope of the fixture being edited, signature layout, declared parameters, class nesting, async, extra decorators, body shape, usefixtures forms, parametrize, 13 unfinished signature/decorator tails, document location, name collision with a conftest fixture; ≤ max_deviations off-default); EVERY judged line is queried at its canonical column (inside the parentheses on signature/decorator lines, end of line in bodies, column 0 at module level) through the real completion handler (once on a fresh server, once after a completion request from a document in another directory with a different visible set, and — unfinished documents — once more after a previous valid version with a different line layout whose every line lay inside a test's signature or body) in a workspace with same-file, conftest (all five scopes), plugin, third-party, shadowed and non-visible sibling fixtures; expected = no items outside signature/body/usefixtures/indirect-parametrize contexts, else visible − declared − the fixture being edited − (inside a fixture) narrower scopes, each label once, sort groups same-file < conftest < plugin < third-party");
     rep.assume("the generator is the ground truth for line classes; blank lines between functions, nested helper functions, parametrize without indirect and `def test_x` without parenthesis are not judged; an unfinished document is analysed after its last valid version");
 }
 
